@@ -63,6 +63,7 @@ def main():
     ap.add_argument("--prop")
     ap.add_argument("--id")
     ap.add_argument("--seeded", action="store_true", help="run the seeded/<id>/patch.diff changes instead")
+    ap.add_argument("--seed", default="1", help="VERIF_SEED for the checks; with a value other than 1 nothing is recorded")
     a = ap.parse_args()
     if a.seeded:
         muts = []
@@ -87,14 +88,14 @@ def main():
             if a.tests:
                 ok, tail = run_tests(d)
                 tests = " repo-tests=%s" % ("pass" if ok else "FAIL")
-            rc, buckets, wall, err = run_check(d, m["prop"])
+            rc, buckets, wall, err = run_check(d, m["prop"], a.seed)
             status = "caught" if rc == 1 else ("MISSED" if rc == 0 else "HARNESS-ERROR")
             if rc != 1:
                 bad += 1
             print(f"{m['prop']} {m['id']}: {status}{tests} wall={wall:.0f}s " +
                   "; ".join(b.split(":", 1)[0][2:] for b in buckets[:3]) + (("\n" + err) if rc == 2 else ""))
             sys.stdout.flush()
-            if a.seeded and rc in (0, 1):
+            if a.seeded and rc in (0, 1) and a.seed == "1":
                 mp = os.path.join(VERIF, "seeded", m["id"], "meta.json")
                 meta = json.load(open(mp))
                 names = sorted({b.split(":", 1)[0].split("bucket=")[-1].strip() for b in buckets})
